@@ -153,6 +153,7 @@ type Obligation struct {
 }
 
 type Exec struct {
+	dynCount map[string]int
 	staleClauses []string // loop clauses that no longer fit the code (renamed variable, other loop shape)
 	selectPred int         // >= 0: keep only this incoming edge of the selected return block
 	retPreds   map[int]int // return ordinal -> number of live incoming edges
